@@ -70,6 +70,7 @@ def dispatch (line : String) : String :=
   | "limwire" :: rest => (Driver.E2E.handleLimWire rest).getD "BAD-CASE\t0"
   | "e2earp" :: rest => (Driver.E2E.handleE2EArp rest).getD "BAD-CASE\t0"
   | "e2elivesrc" :: rest => (Driver.E2E.handleE2ELiveSrc rest).getD "BAD-CASE\t0"
+  | "e2elive" :: rest => (Driver.E2E.handleE2ELive rest).getD "BAD-CASE\t0"
   | "e2eerr" :: rest => (Driver.E2E.handleE2EErr rest).getD "BAD-CASE\t0"
   | "e2earpkill" :: rest => (Driver.E2E.handleE2EArpKill rest).getD "BAD-CASE\t0"
   | "e2esigint" :: rest => (Driver.E2E.handleE2ESigint rest).getD "BAD-CASE\t0"
